@@ -45,8 +45,8 @@ def plan(tier, seed):
         out += L.split_plan("labelled:O3x2x3", spaces.shape_pairs(3, 2), o3, 150, {"mode": "lab", "costs": [core[0], core[2], core[7], cheap_hgt[0]] + uneven})
         # 5 object leaves in a chain on one species, every leaf holding one family or all three (nested INHERIT nodes in
         # the unordered optimum while the ordered optimum is known to be attainable)
-        menu5 = [("a",), ("b",), ("c",), ("a", "b", "c")]
-        out += L.split_plan("labelled:O5chainx1x{a,b,c,abc}", [(sh, None) for sh in spaces.chain_shapes(5)[::7]], menu5, 40,
+        menu5 = [("a",), ("b",), ("c",), ("a", "b"), ("a", "b", "c")]
+        out += L.split_plan("labelled:O5chainx1x{a,b,c,ab,abc}", [(sh, None) for sh in spaces.chain_shapes(5)[::7]], menu5, 40,
                             {"mode": "lab", "costs": [core[0]]})      # the two combs
         # 4-leaf chains on one species, every tuple of subsequences of abc (nested leading / trailing losses)
         out += L.split_plan("labelled:O4chainx1x3s", [(sh, None) for sh in spaces.chain_shapes(4)],
@@ -66,8 +66,8 @@ def plan(tier, seed):
                         "costs": [core[0], cheap_hgt[0]]})
         return out
     out += L.split_plan("labelled:O3x3x3", spaces.shape_pairs(3, 3), o3, 100, {"mode": "lab", "costs": core + cheap_hgt + uneven})
-    out += L.split_plan("labelled:O5chainx1x{a,b,c,abc}", [(sh, None) for sh in spaces.chain_shapes(5)],
-                        [("a",), ("b",), ("c",), ("a", "b", "c")], 40, {"mode": "lab", "costs": [core[0], core[2]]})
+    out += L.split_plan("labelled:O5chainx1x{a,b,c,ab,abc}", [(sh, None) for sh in spaces.chain_shapes(5)],
+                        [("a",), ("b",), ("c",), ("a", "b"), ("a", "b", "c")], 40, {"mode": "lab", "costs": [core[0], core[2]]})
     out += L.split_plan("labelled:O4x3x2", spaces.shape_pairs(4, 3, min_obj=4), o2, 100, {"mode": "lab", "costs": core[:4] + [core[7]] + cheap_hgt[:2]})
     for osh, ssh in spaces.shape_pairs(4, 4):
         out.append({"slice": "single-family:P4x4", "mode": "single", "osh": osh, "ssh": ssh, "costs": core + cheap_hgt + uneven})
